@@ -6,7 +6,7 @@ RULE = ("one case = (ellipsoid, end points) for Inverse or (ellipsoid, start, az
         "exact / ulps / small, end points at and next to the poles (90-10^-k, k=1..14), lon12 = +-180 exactly (tie) and +-ulps, equator "
         "crossing / touching, unreduced longitudes; direct regimes: cardinal / near-cardinal (+-ulps, +-1e-15..1e-5) / multi-turn azimuths, "
         "distances 0, 1e-9 m.., to the pole +-ulps, up to 3 quarter meridians beyond it, either sign, from poles / near poles / equator; "
-        "plus a directed catalogue of 26880 combinations of singular values. Every result is compared with the float128 quadrature "
+        "plus a directed catalogue of 29568 combinations of singular values. Every result is compared with the float128 quadrature "
         "reference; distinct = distinct hash of (class, all inputs); oracle self-test cases are counted as trivial")
 ASSUMPTIONS = [
     "oracle/ref_rhumb.hpp (float128 Gauss-Legendre quadrature of d psi, d m and Q d psi over the SAME singularity-graded panels, closed-form "
